@@ -215,8 +215,8 @@ func (t *TCCServiceProxy) getOrCreateBusinessActionContext(params interface{}) *
 		sf := typ.Field(i)
 		if sf.Type == rm.TypBusinessContextInterface {
 			v := val.Field(i).Interface()
-			if v != nil {
-				return v.(*tm.BusinessActionContext)
+			if c, ok := v.(*tm.BusinessActionContext); ok && c != nil {
+				return c
 			}
 		}
 		if sf.Type == reflect.TypeOf(tm.BusinessActionContext{}) && val.Field(i).CanInterface() {
